@@ -1,7 +1,7 @@
 (* Run.v — entry point used by the extracted driver and by the in-Coq
    cross-check: one case (as written by the harness) and the implementation's
    observation in, the model's observation and the spec verdicts out. *)
-From Model Require Import Str Sexp Http Cors Template Table Curly DetectRoute Jsr311 Router Options Dispatch Response Pool Registry Entity Negotiate.
+From Model Require Import Str Sexp Http Cors Template Table Curly DetectRoute Jsr311 Router Options Dispatch Response Pool Registry Entity Negotiate Builder.
 From Spec Require Import CorsSpec RouteSpec RankSpec DispatchSpec.
 
 Definition verdict (name : string) (b : bool) : sexp := Lst [A (L name); of_bool b].
@@ -68,6 +68,10 @@ Definition run_cors_one (O : oracles) (cfg : cors_cfg) (t : table) (req : reques
       verdict "c09_actual_request_continues"
         (implb (al && negb pre) (any && Bool.eqb invoked routed_ok
                                  && Nat.eqb (List.length (impl_hvalues H_ACAllowOrigin acl)) 1));
+      (* the library's own filter is a filter like any other: the route function behind it runs once when the filter
+         passes control on and the request is routed, and not at all otherwise *)
+      verdict "c06_route_function_runs_exactly_once_behind_the_cors_filter"
+              (Z.eqb (sx_int (sx_nth 1 impl)) (if pass && routed_ok then 1 else 0));
       verdict "c19_cors_history_independent" (sx_bool (sx_nth 4 impl));
       (* services with CORS filters of their own, asked concurrently: a sixth field, when present, says whether every
          answer came from the filter of its own service *)
@@ -991,7 +995,14 @@ Definition run_neg (c impl : sexp) : sexp :=
   let rows := map (fun r => (sx_str (sx_nth 0 r), sx_int (sx_nth 1 r))) (sx_list (sx_nth 0 c)) in
   let qrank (s : str) : option Z := match assoc s rows with Some z => if Z.ltb z 0 then None else Some z | None => None end in
   let reg := sx_strs (sx_nth 1 c) in
-  let produces := sx_strs (sx_nth 2 c) in
+  (* the set-up history of the WebService, when the case has one (10th element: (0 list) = ws.Produces, (1 list) = a
+     route whose builder declares that list): the route that is asked is the first one added, and what it produces is
+     what Builder.ws_build leaves in it *)
+  let mk (own : list str) := {| r_id := 0; r_method := []; r_rel := []; r_consumes := []; r_produces := own;
+                                r_conds := []; r_noct := []; r_enc := None |} in
+  let ops := map (fun o => if Z.eqb (sx_int (sx_nth 0 o)) 0 then BProduces (sx_strs (sx_nth 1 o))
+                           else BRoute (mk (sx_strs (sx_nth 1 o)))) (sx_list (sx_nth 9 c)) in
+  let produces := match w_routes (ws_build ops) with r :: _ => r_produces r | [] => sx_strs (sx_nth 2 c) end in
   let dflt := sx_str (sx_nth 3 c) in
   (* several Accept header lines (separated by a line feed in the case): Header.Get answers with the first line,
      for the router and for the entity writer alike *)
